@@ -150,55 +150,73 @@ func ruleV11(r *Run) {
 					}
 					top = pe
 				}
-				// allowed: [!]loadMore() ; X && [!]loadMore() where X does not call anything ; and such a conjunction as one
-				// disjunct beside tests that END THE READ BECAUSE NOTHING IS WANTED (a comparison of a count with 0)
+				// GU, the condition under which the read is GIVEN UP, is the condition itself when the if-body leaves
+				// (return / continue / break), its negation when the body does the work (positive guard) or for a loop
+				// condition. In GU every disjunct either contains `!loadMore()` (the refill was tried and failed) or is a
+				// nothing-is-wanted test (a count compared with a constant); a disjunct that gives up without a failed
+				// refill is the defect. Negation is pushed inward (De Morgan).
 				bad := ""
-				var walk func(e ast.Expr, underOr bool)
-				walk = func(e ast.Expr, underOr bool) {
+				var chk func(e ast.Expr, neg bool, underOr bool)
+				containsRefill := func(e ast.Expr) bool { return mentionsCall(info, e, lm) }
+				chk = func(e ast.Expr, neg bool, underOr bool) {
 					e = ast.Unparen(e)
 					switch x := e.(type) {
-					case *ast.BinaryExpr:
-						switch x.Op {
-						case token.LOR:
-							walk(x.X, true)
-							walk(x.Y, true)
-							return
-						case token.LAND:
-							walk(x.X, underOr)
-							walk(x.Y, underOr)
-							return
-						}
 					case *ast.UnaryExpr:
 						if x.Op == token.NOT {
-							walk(x.X, underOr)
+							chk(x.X, !neg, underOr)
 							return
 						}
-					case *ast.CallExpr:
-						if Callee(info, x) == lm {
+					case *ast.BinaryExpr:
+						isOr := (x.Op == token.LOR && !neg) || (x.Op == token.LAND && neg)
+						isAnd := (x.Op == token.LAND && !neg) || (x.Op == token.LOR && neg)
+						if isOr {
+							chk(x.X, neg, true)
+							chk(x.Y, neg, true)
 							return
 						}
-					}
-					// a leaf that is not the refill
-					if underOr && mentionsCall(info, top, lm) {
-						// a sibling disjunct: may only be a comparison of a length / count with a constant (nothing is wanted)
-						if b, ok := e.(*ast.BinaryExpr); ok {
-							if _, isConst := intConst(info, b.Y); isConst && b.Op == token.EQL {
-								if _, isField := ast.Unparen(b.X).(*ast.SelectorExpr); !isField {
-									return
-								}
-							}
-							// head == tail in conjunction with the refill
-							if b.Op == token.EQL && isWindowField(info, b.X) && isWindowField(info, b.Y) {
+						if isAnd {
+							// a conjunction: fine as a whole if one conjunct is the failed refill
+							if containsRefill(x) {
+								chk(x.X, neg, false)
+								chk(x.Y, neg, false)
 								return
 							}
 						}
+					case *ast.CallExpr:
+						if Callee(info, x) == lm {
+							if !neg {
+								bad = "a SUCCESSFUL refill"
+							}
+							return
+						}
+					}
+					if !underOr {
+						return // a conjunct beside the refill, or the whole condition without a refill: restricts, does not add
+					}
+					// a disjunct without the refill: only a nothing-wanted test
+					if b, ok := e.(*ast.BinaryExpr); ok {
+						if _, isConst := intConst(info, b.Y); isConst {
+							if _, isField := ast.Unparen(b.X).(*ast.SelectorExpr); !isField {
+								return
+							}
+						}
+					}
+					if neg {
+						bad = "!(" + types.ExprString(e) + ")"
+					} else {
 						bad = types.ExprString(e)
 					}
 				}
-				if _, isCond := parents[top].(*ast.IfStmt); isCond {
-					walk(top, false)
-				} else if _, isFor := parents[top].(*ast.ForStmt); isFor {
-					walk(top, false)
+				switch par := parents[top].(type) {
+				case *ast.IfStmt:
+					if par.Cond == top {
+						leaves := endsInJump(par.Body.List)
+						chk(top, !leaves, false)
+					}
+				case *ast.ForStmt:
+					if par.Cond == top {
+						chk(top, true, false)
+					}
 				}
 				r.Check(bad == "", key, c.Pos(), "the read is given up only when the refill fails", "the condition `"+types.ExprString(top)+"` can end the read through `"+bad+"` without trying to refill: decoding from a reader stops at the end of the window where decoding from a slice goes on")
 				return true
@@ -725,85 +743,145 @@ func ruleU5(r *Run) {
 		tv, ok := info.Types[e]
 		return ok && tv.Type != nil && tv.Type.String() == "reflect.Type"
 	}
-	n := 0
+	notNil := func(e ast.Expr) bool {
+		id, ok := ast.Unparen(e).(*ast.Ident)
+		return !ok || id.Name != "nil"
+	}
+	var decls []*ast.FuncDecl
 	for _, file := range pkg.Syntax {
 		for _, d := range file.Decls {
-			fd, ok := d.(*ast.FuncDecl)
-			if !ok || fd.Body == nil {
-				continue
+			if fd, ok := d.(*ast.FuncDecl); ok && fd.Body != nil {
+				decls = append(decls, fd)
 			}
-			var sliceOf *ast.CallExpr
-			unsafeSet := false
-			ast.Inspect(fd.Body, func(m ast.Node) bool {
-				if c, ok := m.(*ast.CallExpr); ok {
-					if FullNameOf(info, c) == "reflect.SliceOf" && len(c.Args) == 1 {
-						sliceOf = c
-					}
-					if methodName(c) == "UnsafeSetIndex" {
-						unsafeSet = true
-					}
-				}
-				return true
-			})
-			if sliceOf == nil || !unsafeSet {
-				continue
-			}
-			t := identObj(info, sliceOf.Args[0])
-			if _, isVar := t.(*types.Var); !isVar || isParamOrResult(info, fd, t) {
-				continue // the element type is given by the caller (a static destination), not inferred from the values
-			}
-			n++
-			key := "element type identity in " + p.DeclName(fd)
-			parents := parentMap(fd.Body)
-			identity := false
-			// the element type may be worked out by a helper (t := commonType(values)): the comparison is looked for there
-			if def, ok := localDefs(info, fd.Body)[t]; ok {
-				if hc, ok := ast.Unparen(def).(*ast.CallExpr); ok {
-					if hd, hpkg := p.calleeDecl(info, hc); hd != nil && hpkg == pkg {
-						ast.Inspect(hd.Body, func(m ast.Node) bool {
-							if b, ok := m.(*ast.BinaryExpr); ok && (b.Op == token.EQL || b.Op == token.NEQ) && isReflectType(b.X) && isReflectType(b.Y) {
-								xn, _ := ast.Unparen(b.X).(*ast.Ident)
-								yn, _ := ast.Unparen(b.Y).(*ast.Ident)
-								if (xn == nil || xn.Name != "nil") && (yn == nil || yn.Name != "nil") {
-									identity = true
-								}
-							}
-							return true
-						})
-					}
-				}
-			}
-			ast.Inspect(fd.Body, func(m ast.Node) bool {
-				b, ok := m.(*ast.BinaryExpr)
-				if !ok || (b.Op != token.EQL && b.Op != token.NEQ) || b.Pos() > sliceOf.Pos() {
-					return true
-				}
-				if !isReflectType(b.X) || !isReflectType(b.Y) {
-					return true
-				}
-				if identObj(info, b.X) != t && identObj(info, b.Y) != t {
-					return true
-				}
-				// nil tests do not count
-				if id, ok := ast.Unparen(b.X).(*ast.Ident); ok && id.Name == "nil" {
-					return true
-				}
-				if id, ok := ast.Unparen(b.Y).(*ast.Ident); ok && id.Name == "nil" {
-					return true
-				}
-				// the mismatch leaves: the comparison is the condition of an if whose taken branch returns
-				if ifs, ok := parents[b].(*ast.IfStmt); ok && b.Op == token.NEQ && len(ifs.Body.List) > 0 {
-					if _, isRet := ifs.Body.List[len(ifs.Body.List)-1].(*ast.ReturnStmt); isRet {
-						identity = true
-					}
-				}
-				if b.Op == token.EQL {
-					identity = true // `if rt == t { continue }` ... forms: accepted when present at all
-				}
-				return true
-			})
-			r.Check(identity, key, sliceOf.Pos(), "every value's type is compared with the element type by identity before the slice is built", "no identity comparison between the values' types and "+t.Name()+" guards reflect.SliceOf("+t.Name()+") + UnsafeSetIndex: values of another type of the same kind are copied into the typed slice as raw memory")
 		}
+	}
+	// established: in fd, the type held by t has been compared for identity with the types of the values
+	var established func(fd *ast.FuncDecl, t types.Object, before token.Pos, depth int) bool
+	established = func(fd *ast.FuncDecl, t types.Object, before token.Pos, depth int) bool {
+		if depth > 3 {
+			return false
+		}
+		parents := parentMap(fd.Body)
+		ok := false
+		// (a) a comparison in this function
+		ast.Inspect(fd.Body, func(m ast.Node) bool {
+			b, isB := m.(*ast.BinaryExpr)
+			if !isB || (b.Op != token.EQL && b.Op != token.NEQ) || (before != token.NoPos && b.Pos() > before) {
+				return true
+			}
+			if !isReflectType(b.X) || !isReflectType(b.Y) || !notNil(b.X) || !notNil(b.Y) {
+				return true
+			}
+			if identObj(info, b.X) != t && identObj(info, b.Y) != t {
+				return true
+			}
+			if ifs, isIf := parents[b].(*ast.IfStmt); isIf && b.Op == token.NEQ && len(ifs.Body.List) > 0 {
+				if _, isRet := ifs.Body.List[len(ifs.Body.List)-1].(*ast.ReturnStmt); isRet {
+					ok = true
+				}
+			}
+			if b.Op == token.EQL {
+				ok = true
+			}
+			return true
+		})
+		if ok {
+			return true
+		}
+		// (b) t is worked out by a helper that compares
+		if def, has := localDefs(info, fd.Body)[t]; has {
+			if hc, isCall := ast.Unparen(def).(*ast.CallExpr); isCall {
+				if hd, hpkg := p.calleeDecl(info, hc); hd != nil && hpkg == pkg {
+					found := false
+					ast.Inspect(hd.Body, func(m ast.Node) bool {
+						if b, isB := m.(*ast.BinaryExpr); isB && (b.Op == token.EQL || b.Op == token.NEQ) && isReflectType(b.X) && isReflectType(b.Y) && notNil(b.X) && notNil(b.Y) {
+							found = true
+						}
+						return true
+					})
+					if found {
+						return true
+					}
+				}
+			}
+		}
+		// (c) t is a parameter of an unexported function: every call site hands over an established type
+		if isParamOrResult(info, fd, t) && !fd.Name.IsExported() {
+			self, _ := info.Defs[fd.Name].(*types.Func)
+			idx := -1
+			for i, pv := range paramsOf(info, fd.Type) {
+				if types.Object(pv) == t {
+					idx = i
+				}
+			}
+			if self == nil || idx < 0 {
+				return false
+			}
+			sites, all := 0, true
+			for _, cd := range decls {
+				ast.Inspect(cd.Body, func(m ast.Node) bool {
+					c, isCall := m.(*ast.CallExpr)
+					if !isCall || Callee(info, c) != self || idx >= len(c.Args) {
+						return true
+					}
+					sites++
+					ao := identObj(info, c.Args[idx])
+					if ao == nil || !established(cd, ao, c.Pos(), depth+1) {
+						all = false
+					}
+					return true
+				})
+			}
+			return sites > 0 && all
+		}
+		return false
+	}
+	n := 0
+	for _, fd := range decls {
+		var sliceOf *ast.CallExpr
+		unsafeSet := false
+		ast.Inspect(fd.Body, func(m ast.Node) bool {
+			if c, ok := m.(*ast.CallExpr); ok {
+				if FullNameOf(info, c) == "reflect.SliceOf" && len(c.Args) == 1 {
+					sliceOf = c
+				}
+				if methodName(c) == "UnsafeSetIndex" {
+					unsafeSet = true
+				}
+			}
+			return true
+		})
+		if sliceOf == nil || !unsafeSet {
+			continue
+		}
+		t := identObj(info, sliceOf.Args[0])
+		if _, isVar := t.(*types.Var); !isVar {
+			continue
+		}
+		if isParamOrResult(info, fd, t) && fd.Name.IsExported() {
+			continue // the element type is given by the caller (a static destination), not inferred from the values
+		}
+		// the values are dynamically typed: the function fills from []interface{} (or interface{} values)
+		dyn := false
+		for _, pv := range paramsOf(info, fd.Type) {
+			if strings.Contains(pv.Type().String(), "interface{}") || strings.Contains(pv.Type().String(), "interface {}") {
+				dyn = true
+			}
+		}
+		ast.Inspect(fd.Body, func(m ast.Node) bool {
+			if id, ok := m.(*ast.Ident); ok {
+				if v, ok := info.Uses[id].(*types.Var); ok && strings.HasPrefix(v.Type().String(), "[]interface") {
+					dyn = true
+				}
+			}
+			return true
+		})
+		if !dyn {
+			continue
+		}
+		n++
+		key := "element type identity in " + p.DeclName(fd)
+		r.Check(established(fd, t, sliceOf.Pos(), 0), key, sliceOf.Pos(), "every value's type is compared with the element type by identity before the slice is built", "no identity comparison between the values' types and "+t.Name()+" guards reflect.SliceOf("+t.Name()+") + UnsafeSetIndex: values of another type of the same kind are copied into the typed slice as raw memory")
 	}
 	if n == 0 {
 		r.Undec("run-time slice construction in package io", 0, "no function with reflect.SliceOf of an inferred type and UnsafeSetIndex found")
@@ -1731,4 +1809,488 @@ func ruleG48(r *Run) {
 		return
 	}
 	r.Check(uncond, key, fd.Pos(), "cleared by a statement of the function's own block", "the reference table is cleared only under a condition: in the other case the references of the previous input stay resolvable")
+}
+
+// ---------------------------------------------------------------------------------------------------
+// F8 a time is labelled local only when it is; F9 Flush keeps what the writer did not take
+
+func init() {
+	register("F8", "the date/time item knows two zones, UTC (`Z`) and the reader's local time (`;`): the writer that chooses the terminator by comparing the time's Location() with time.UTC also consults time.Local - a time in any THIRD location (time.FixedZone, what time.Parse returns for +08:00) must be converted before its fields are taken, or it is written with its foreign wall clock under the label `local` and every reader gets another instant (12:00 +0800 came back as 12:00 local, 8 hours off)", 1, ruleF8)
+	register("F9", "Encoder.Flush advances its flush offset by the number of bytes the Writer has TAKEN (the count returned by Write), not to the end of the buffer: after a write that failed half way (a deadline) the unsent tail is still to be sent - otherwise the next value is written right behind a truncated one (`s11\"` followed by `i12345;`) and the values of the stream are no longer individually delimited", 1, ruleF9)
+}
+
+func ruleF8(r *Run) {
+	p := r.P
+	pkg := p.Pkg("io")
+	if pkg == nil {
+		r.Undec("package io", 0, "not found")
+		return
+	}
+	info := pkg.TypesInfo
+	n := 0
+	for _, file := range pkg.Syntax {
+		for _, d := range file.Decls {
+			fd, ok := d.(*ast.FuncDecl)
+			if !ok || fd.Body == nil {
+				continue
+			}
+			utc, local := false, false
+			var at token.Pos
+			ast.Inspect(fd.Body, func(m ast.Node) bool {
+				b, ok := m.(*ast.BinaryExpr)
+				if !ok || (b.Op != token.EQL && b.Op != token.NEQ) {
+					return true
+				}
+				for _, pr := range [][2]ast.Expr{{b.X, b.Y}, {b.Y, b.X}} {
+					o := qualObj(info, pr[1])
+					if o == nil || o.Pkg() == nil || o.Pkg().Path() != "time" {
+						continue
+					}
+					// the other side is a Location() call or a local holding one
+					isLoc := false
+					if c, ok := ast.Unparen(pr[0]).(*ast.CallExpr); ok && methodName(c) == "Location" {
+						isLoc = true
+					}
+					if v := identObj(info, pr[0]); v != nil && strings.HasSuffix(v.Type().String(), "time.Location") {
+						isLoc = true
+					}
+					if !isLoc {
+						continue
+					}
+					switch o.Name() {
+					case "UTC":
+						utc = true
+						at = b.Pos()
+					case "Local":
+						local = true
+					}
+				}
+				return true
+			})
+			if !utc {
+				continue
+			}
+			// an encoder: the function appends to the output
+			writes := false
+			ast.Inspect(fd.Body, func(m ast.Node) bool {
+				if c, ok := m.(*ast.CallExpr); ok && IsBuiltin(info, c, "append") {
+					writes = true
+				}
+				return true
+			})
+			if !writes {
+				continue
+			}
+			n++
+			r.Check(local, "zones of the time written by "+p.DeclName(fd), at, "time.UTC and time.Local are both consulted", "the terminator is chosen by comparing Location() with time.UTC only: every other location is labelled as the reader's local time, whatever zone it is - its wall clock is read back as another instant")
+		}
+	}
+	if n == 0 {
+		r.Undec("time writer of package io", 0, "no function that compares Location() with time.UTC and appends found")
+	}
+}
+
+func ruleF9(r *Run) {
+	p := r.P
+	fd, pkg := p.DeclOf("io", "Encoder.Flush")
+	key := "io.Encoder.Flush advances by the bytes taken"
+	if fd == nil {
+		r.Undec(key, 0, "not found")
+		return
+	}
+	info := pkg.TypesInfo
+	offF := p.LookupField("io", "Encoder", "off")
+	if offF == nil {
+		r.Undec(key, fd.Pos(), "Encoder.off not found")
+		return
+	}
+	// the count returned by Writer.Write
+	var nObj types.Object
+	ast.Inspect(fd.Body, func(m ast.Node) bool {
+		as, ok := m.(*ast.AssignStmt)
+		if !ok || len(as.Rhs) != 1 || len(as.Lhs) != 2 {
+			return true
+		}
+		if c, ok := ast.Unparen(as.Rhs[0]).(*ast.CallExpr); ok && methodName(c) == "Write" {
+			if o := identObj(info, as.Lhs[0]); o != nil && o.Name() != "_" {
+				nObj = o
+			}
+		}
+		return true
+	})
+	good, found := false, false
+	ast.Inspect(fd.Body, func(m ast.Node) bool {
+		as, ok := m.(*ast.AssignStmt)
+		if !ok || len(as.Lhs) != 1 || fieldOf(info, as.Lhs[0]) != offF {
+			return true
+		}
+		found = true
+		if nObj != nil && mentionsObj(info, as.Rhs[0], nObj) {
+			good = true
+		}
+		return true
+	})
+	if !found {
+		r.Undec(key, fd.Pos(), "no assignment to the flush offset")
+		return
+	}
+	r.Check(good, key, fd.Pos(), "off is advanced by the count returned by Write", "the flush offset is set without regard to the count Write returned: after a partial write the bytes the writer did not take are skipped for good, and the next value follows a truncated one")
+}
+
+// ---------------------------------------------------------------------------------------------------
+// G49 a client without a server address gets an error, not a panic
+
+func init() {
+	register("G49", "a client that has no (parsable) server address fails its calls with an error: (1) the bottom of the client's IO chain (the method value handed to NewIOManager: Client.Transport) compares the call's URL with nil before it looks into it - ClientContext.Init leaves the URL nil when the URL list is empty; (2) in rpc/plugins/cluster an element of the client's URL list is taken only where the list is known not to be empty (a test of its length on the path, or an index that is a loop variable bounded by the length): the failover callback runs AFTER the recover of the cluster handler, a panic there leaves the call through the application's goroutine (C10: every call ends with a result or an error)", 3, ruleG49)
+}
+
+func ruleG49(r *Run) {
+	p := r.P
+	core := p.Pkg("rpc/core")
+	if core == nil {
+		r.Undec("package rpc/core", 0, "not found")
+		return
+	}
+	info := core.TypesInfo
+	urlF := p.LookupField("rpc/core", "ClientContext", "URL")
+	if urlF == nil {
+		r.Undec("rpc/core.ClientContext.URL", 0, "not found")
+		return
+	}
+	// (1) the bottoms of IO chains in rpc/core
+	for _, file := range core.Syntax {
+		ast.Inspect(file, func(m ast.Node) bool {
+			c, ok := m.(*ast.CallExpr)
+			if !ok {
+				return true
+			}
+			if f := Callee(info, c); f == nil || refName(f.Name()) != "NewIOManager" {
+				return true
+			}
+			for _, a := range c.Args {
+				sel, ok := ast.Unparen(a).(*ast.SelectorExpr)
+				if !ok {
+					continue
+				}
+				s := info.Selections[sel]
+				if s == nil || s.Kind() != types.MethodVal {
+					continue
+				}
+				bf, _ := s.Obj().(*types.Func)
+				fd := p.Decl(bf)
+				if fd == nil || fd.Body == nil {
+					continue
+				}
+				// uses of the URL: through a local or directly
+				holders := map[types.Object]bool{}
+				ast.Inspect(fd.Body, func(q ast.Node) bool {
+					if as, ok := q.(*ast.AssignStmt); ok && len(as.Lhs) == len(as.Rhs) {
+						for i, rh := range as.Rhs {
+							if fieldOf(info, rh) == urlF {
+								if o := identObj(info, as.Lhs[i]); o != nil {
+									holders[o] = true
+								}
+							}
+						}
+					}
+					return true
+				})
+				isURL := func(e ast.Expr) bool {
+					return fieldOf(info, e) == urlF || holders[identObj(info, e)]
+				}
+				parents := parentMap(fd.Body)
+				nUse := 0
+				ast.Inspect(fd.Body, func(q ast.Node) bool {
+					se, ok := q.(*ast.SelectorExpr)
+					if !ok || !isURL(se.X) {
+						return true
+					}
+					nUse++
+					key := fmt.Sprintf("URL looked into in %s #%d", p.DeclName(fd), nUse)
+					guarded := false
+					for _, f := range factsWithSwitch(parents, se) {
+						if b, ok := ast.Unparen(f.e).(*ast.BinaryExpr); ok && (b.Op == token.EQL || b.Op == token.NEQ) && isURL(b.X) {
+							if id, ok := ast.Unparen(b.Y).(*ast.Ident); ok && id.Name == "nil" {
+								if (b.Op == token.NEQ && !f.neg) || (b.Op == token.EQL && f.neg) {
+									guarded = true
+								}
+							}
+						}
+					}
+					r.Check(guarded, key, se.Pos(), "under a nil test of the URL", "`"+types.ExprString(se)+"` is evaluated without a nil test of the call's URL: a client whose URL list is empty (no address given, or one that url.Parse rejected) panics with a nil dereference in the goroutine of the application that made the call")
+					return true
+				})
+			}
+			return true
+		})
+	}
+	// (2) elements of the URL list in the cluster plugin
+	cl := p.Pkg("rpc/plugins/cluster")
+	if cl == nil {
+		r.Undec("package rpc/plugins/cluster", 0, "not found")
+		return
+	}
+	cinfo := cl.TypesInfo
+	for _, file := range cl.Syntax {
+		for _, d := range file.Decls {
+			fd, ok := d.(*ast.FuncDecl)
+			if !ok || fd.Body == nil {
+				continue
+			}
+			parents := parentMap(fd.Body)
+			// locals that hold the URL list, and locals that hold its length
+			lists := map[types.Object]bool{}
+			lens := map[types.Object]bool{}
+			isList := func(e ast.Expr) bool {
+				if fv := fieldOf(cinfo, e); fv != nil && fv.Name() == "URLs" {
+					return true
+				}
+				return lists[identObj(cinfo, e)]
+			}
+			isLen := func(e ast.Expr) bool {
+				e = stripConv(cinfo, e)
+				if c, ok := ast.Unparen(e).(*ast.CallExpr); ok && IsBuiltin(cinfo, c, "len") && len(c.Args) == 1 && isList(c.Args[0]) {
+					return true
+				}
+				return lens[identObj(cinfo, e)]
+			}
+			for round := 0; round < 2; round++ {
+				ast.Inspect(fd.Body, func(q ast.Node) bool {
+					if as, ok := q.(*ast.AssignStmt); ok && len(as.Lhs) == len(as.Rhs) {
+						for i, rh := range as.Rhs {
+							if o := identObj(cinfo, as.Lhs[i]); o != nil {
+								if isList(rh) {
+									lists[o] = true
+								}
+								if isLen(rh) {
+									lens[o] = true
+								}
+							}
+						}
+					}
+					return true
+				})
+			}
+			k := 0
+			ast.Inspect(fd.Body, func(q ast.Node) bool {
+				ix, ok := q.(*ast.IndexExpr)
+				if !ok || !isList(ix.X) {
+					return true
+				}
+				k++
+				key := fmt.Sprintf("element of the URL list in %s #%d", p.DeclName(fd), k)
+				good := false
+				for _, f := range factsWithSwitch(parents, ix) {
+					ast.Inspect(f.e, func(x ast.Node) bool {
+						if b, ok := x.(*ast.BinaryExpr); ok {
+							switch b.Op {
+							case token.EQL, token.NEQ, token.LSS, token.GTR, token.LEQ, token.GEQ:
+								if isLen(b.X) || isLen(b.Y) {
+									good = true
+								}
+							}
+						}
+						return true
+					})
+				}
+				r.Check(good, key, ix.Pos(), "the length of the list has been tested on the path", "`"+types.ExprString(ix)+"` is evaluated without any test of the length of the URL list: with a client that has no server address the index is out of range - in the failover callback that is a panic AFTER the handler's recover, which leaves through the caller's goroutine")
+				return true
+			})
+		}
+	}
+}
+
+// ---------------------------------------------------------------------------------------------------
+// G50 the caller's context reaches the call; G51 Use only adds
+
+func init() {
+	register("G50", "a proxy call made with a leading context.Context runs ON that context: in the function of rpc/core that takes the proxy arguments apart (a type switch over the first argument with a clause for context.Context), that clause assigns the clause variable to the context variable that is later handed to the client's InvokeContext, as a statement of the clause's own list - not inside a condition (on whether the context carries a ClientContext, for example): otherwise such a call runs on context.Background(), ignores the caller's cancel and deadline and ends only with the response or the client's 30 s time-out", 1, ruleG50)
+	register("G51", "the Use entry points of rpc/core (Client.Use, Service.Use: the methods named Use of types that hold PluginManager fields) do nothing to their managers but Use: every call they make on a PluginManager is Use - an Unuse slipped in 'so that a handler is not installed twice' removes, by the code-pointer identity of Unuse, every OTHER installed handler of the same method or closure (a second logger replaces the first) and moves a re-used handler from the outermost to the innermost position", 2, ruleG51)
+}
+
+func ruleG50(r *Run) {
+	p := r.P
+	pkg := p.Pkg("rpc/core")
+	if pkg == nil {
+		r.Undec("package rpc/core", 0, "not found")
+		return
+	}
+	info := pkg.TypesInfo
+	n := 0
+	for _, file := range pkg.Syntax {
+		for _, d := range file.Decls {
+			fd, ok := d.(*ast.FuncDecl)
+			if !ok || fd.Body == nil {
+				continue
+			}
+			// the context handed to InvokeContext
+			var ctxVar types.Object
+			ast.Inspect(fd.Body, func(m ast.Node) bool {
+				if c, ok := m.(*ast.CallExpr); ok && refName(methodName(c)) == "InvokeContext" && len(c.Args) > 0 {
+					if o := identObj(info, c.Args[0]); o != nil {
+						ctxVar = o
+					}
+				}
+				return true
+			})
+			if ctxVar == nil {
+				continue
+			}
+			ast.Inspect(fd.Body, func(m ast.Node) bool {
+				ts, ok := m.(*ast.TypeSwitchStmt)
+				if !ok {
+					return true
+				}
+				for _, cs := range ts.Body.List {
+					cc := cs.(*ast.CaseClause)
+					isCtx := false
+					for _, e := range cc.List {
+						if tv, ok := info.Types[e]; ok && tv.Type != nil && tv.Type.String() == "context.Context" {
+							isCtx = true
+						}
+					}
+					if !isCtx {
+						continue
+					}
+					n++
+					key := "context argument of a proxy call in " + p.DeclName(fd)
+					// the clause variable
+					cv := info.Implicits[cc]
+					uncond := false
+					for _, s := range cc.Body {
+						if as, ok := s.(*ast.AssignStmt); ok {
+							for i, l := range as.Lhs {
+								if identObj(info, l) == ctxVar && i < len(as.Rhs) {
+									if cv == nil || identObj(info, as.Rhs[i]) == cv {
+										uncond = true
+									}
+								}
+							}
+						}
+					}
+					r.Check(uncond, key, cc.Pos(), "the clause assigns the context unconditionally", "the context.Context clause does not assign the caller's context to "+ctxVar.Name()+" as a statement of its own: on some path the call runs on context.Background() and the caller's cancellation and deadline are ignored")
+				}
+				return true
+			})
+		}
+	}
+	if n == 0 {
+		r.Undec("proxy argument handling in rpc/core", 0, "no type switch with a context.Context clause in a function that calls InvokeContext")
+	}
+}
+
+func ruleG51(r *Run) {
+	p := r.P
+	pkg := p.Pkg("rpc/core")
+	if pkg == nil {
+		r.Undec("package rpc/core", 0, "not found")
+		return
+	}
+	info := pkg.TypesInfo
+	pmObj, _ := p.LookupObj("rpc/core", "PluginManager").(*types.TypeName)
+	if pmObj == nil {
+		r.Undec("rpc/core.PluginManager", 0, "not found")
+		return
+	}
+	for _, file := range pkg.Syntax {
+		for _, d := range file.Decls {
+			fd, ok := d.(*ast.FuncDecl)
+			if !ok || fd.Body == nil || fd.Recv == nil || fd.Name.Name != "Use" {
+				continue
+			}
+			var calls []string
+			ast.Inspect(fd.Body, func(m ast.Node) bool {
+				c, ok := m.(*ast.CallExpr)
+				if !ok {
+					return true
+				}
+				sel, ok := ast.Unparen(c.Fun).(*ast.SelectorExpr)
+				if !ok {
+					return true
+				}
+				if tv, ok := info.Types[sel.X]; ok && tv.Type != nil {
+					if nt, ok := tv.Type.(*types.Named); ok && nt.Obj() == pmObj {
+						calls = append(calls, sel.Sel.Name)
+					}
+				}
+				return true
+			})
+			if len(calls) == 0 {
+				continue // the manager's own Use
+			}
+			bad := ""
+			for _, c := range calls {
+				if c != "Use" {
+					bad = c
+				}
+			}
+			r.Check(bad == "", "manager calls of "+p.DeclName(fd), fd.Pos(), "only Use", p.DeclName(fd)+" calls "+bad+" on a plugin manager: installing a handler must not remove or reorder what is installed")
+		}
+	}
+}
+
+// ---------------------------------------------------------------------------------------------------
+// S16 one writer per connection
+
+func init() {
+	register("S16", "on the server side of the stream and websocket transports (rpc/socket.Handler, rpc/websocket.Handler) only the send loop writes to the connection: no function reachable from Handler.receive (through the package's own functions, the tasks it starts included) calls Write / WriteMessage / NextWriter on the connection. Responses are QUEUED for the single writer; a second goroutine that writes by itself (a refusal sent straight from the receive loop) can put its frame between the header and the body of a response that is being written - that caller receives another frame's header followed by its own body cut short", 2, ruleS16)
+}
+
+func ruleS16(r *Run) {
+	p := r.P
+	for _, tr := range []string{"rpc/socket", "rpc/websocket"} {
+		pkg := p.Pkg(tr)
+		key := "single writer in " + tr + ".Handler.receive"
+		if pkg == nil {
+			r.Undec(key, 0, "package not found")
+			continue
+		}
+		info := pkg.TypesInfo
+		root, _ := p.DeclOf(tr, "Handler.receive")
+		if root == nil {
+			r.Undec(key, 0, "Handler.receive not found")
+			continue
+		}
+		seen := map[*ast.FuncDecl]bool{}
+		bad := ""
+		var visit func(fd *ast.FuncDecl, depth int)
+		visit = func(fd *ast.FuncDecl, depth int) {
+			if fd == nil || fd.Body == nil || seen[fd] || depth > 6 {
+				return
+			}
+			seen[fd] = true
+			ast.Inspect(fd.Body, func(m ast.Node) bool {
+				c, ok := m.(*ast.CallExpr)
+				if !ok {
+					return true
+				}
+				switch methodName(c) {
+				case "Write", "WriteMessage", "NextWriter", "WriteJSON", "WriteControl", "WritePreparedMessage":
+					if sel, ok := ast.Unparen(c.Fun).(*ast.SelectorExpr); ok {
+						if tv, ok := info.Types[sel.X]; ok && tv.Type != nil {
+							ts := tv.Type.String()
+							if ts == "net.Conn" || strings.HasSuffix(ts, "websocket.Conn") {
+								bad = p.DeclName(fd) + " calls " + methodName(c) + " at " + p.Rel(c.Pos())
+							}
+						}
+					}
+				}
+				if d, dpkg := p.calleeDecl(info, c); d != nil && dpkg == pkg {
+					visit(d, depth+1)
+				}
+				// method values handed on (h.task(...), go h.run(...))
+				for _, a := range c.Args {
+					if ac, ok := ast.Unparen(a).(*ast.CallExpr); ok {
+						if d, dpkg := p.calleeDecl(info, ac); d != nil && dpkg == pkg {
+							visit(d, depth+1)
+						}
+					}
+				}
+				return true
+			})
+			// function literals' bodies are part of fd.Body already
+		}
+		visit(root, 0)
+		r.Check(bad == "", key, root.Pos(), fmt.Sprintf("%d functions reachable from receive, none writes to the connection", len(seen)), "reachable from the receive loop, "+bad+": the connection has two writers, and a frame can be written into the middle of another")
+	}
 }
